@@ -1899,6 +1899,13 @@ class Program:
             r = ((good, wrap_good(pg)), (bad, args[1]))
         elif m == "unwrap_or_default" and len(args) == 1:
             return None
+        elif m == "ok_or_else" and opt and len(args) == 2:
+            # with a closure that only builds the error value, ok_or_else(f) is ok_or(f()): the rules speak of ok_or
+            v = ap(args[1], [], bad)
+            if v is not None and not eff:
+                an.hint(X, "option::Option")
+                return T.call("option::Option::ok_or", (), [X, v])
+            return None
         if r is None:
             return None
         if eff:
